@@ -32,6 +32,11 @@ CHECKS.update({
     "C16": ("DESIGN 4 C16", "Differential refinement against the built-in set, list and dict: every pre-state of a small pool crossed with the complete MutableSet / MutableSequence / MutableMapping interface (return value, contents, exception type, ownership and cache consistency after success or failure), documented deviations applied to the model."),
 })
 
+CHECKS.update({
+    "C10": ("DESIGN 4 C10", "Inductive step over the symbol indexes: every state of one symbol (module, name incl. the empty string, payload among None/0/7/block/proxy) crossed with representative states of a second symbol, every placement of the referenced block and proxy, and every operation (rename, referent/value assignment, symbol set operations from either end, block/proxy/section/interval moves, constructors); symbols_named and references compared with a scan as identity lists without repetition."),
+    "C11": ("DESIGN 4 C11", "CFG on real networkx against a Python set of (source, target, label) triples: pre-states with parallel edges in both insertion orders, then one or two operations of the full MutableSet alphabet; length, membership of all 12 edges, iteration, out_edges/in_edges and block views after every step."),
+})
+
 NOT_APPLICABLE = {
 }
 
